@@ -23,7 +23,7 @@ from molgri.space.fullgrid import FullGrid
 PROPERTY = "C20"
 
 LEGENDS = ["Potential", "LJ (SR):M1-M2", "LJ (SR)", "Box-XX", "Box-X", "Disper. corr.", "a b  c", "#x", "s1", "Coulomb (SR)", "Pres. DC (bar)", "Pressure",
-           "Constr. rmsd", "Kinetic En.", "Temperature", "Coul-SR:SOL -SOL ", " Potential", "Vir-XX, corr.", "legend s2", "@ s3"]
+           "Constr. rmsd", "Kinetic En.", "Temperature", "Coul-SR:SOL -SOL ", " Potential", "Vir-XX, corr.", "legend s2", "@ s3", "Box-X (\u00c5)", "\u0394E (kJ/mol)"]
 AT_LINES = ['@    title "GROMACS Energies"', '@    xaxis  label "Time (ps)"', '@    yaxis  label "(kJ/mol)"', "@TYPE xy",
             "@ view 0.15, 0.15, 0.75, 0.85", "@ legend on", "@ legend box on", "@ legend loctype view",
             "@ legend 0.78, 0.8", "@ legend length 2"]
@@ -163,8 +163,10 @@ def xvg_case(case):
     d = tempfile.mkdtemp(prefix="c20x_", dir=case["tmp"])
     vs = []
     try:
-        path = os.path.join(d, "energy.xvg")
-        with open(path, "w") as fh:
+        # file names: the type is decided by the END of the path; other dots, blanks and look-alike parts are harmless
+        k_ = h + nleg + nrows
+        path = os.path.join(d, ("energy.xvg", "run.csv.xvg", "my energy.v2.xvg", "xvg.csv_energy.xvg")[k_ % 4])
+        with open(path, "w", encoding="utf-8") as fh:
             fh.write(text)
         want_cols = ["Time [ps]"] + legends
         want = np.array([[float(x) for x in r] for r in rows])
@@ -218,7 +220,7 @@ def xvg_case(case):
                     vs.append(viol(pre + "|single_column_raises", f"{type(e).__name__} for '{lg}'", case))
                     break
             try:
-                cpath = os.path.join(d, "energy.csv")
+                cpath = os.path.join(d, ("energy.csv", "energy.xvg.csv", "frame of run.xvg.v2.csv")[k_ % 3])
                 df.to_csv(cpath)
                 df2 = EnergyReader(cpath).load_energy()
                 if list(df2.columns) != list(df.columns) or not np.array_equal(df2.to_numpy(dtype=float),
